@@ -54,6 +54,14 @@ def main():
             res["suite_build_rc"] = rc
             if rc == 0:
                 rc2, out2 = sh("ctest --test-dir _build -j8 --timeout 900", cwd=wt)
+                res["suite_first_run_rc"] = rc2
+                tries = 0
+                while rc2 != 0 and tries < 3:
+                    # the suite has wall-clock *.Performance tests that flake on a loaded machine: re-run only the failed ones, serially
+                    failed = [l for l in out2.splitlines() if "(Failed)" in l or "***Failed" in l]
+                    res.setdefault("suite_failed_first_run", failed[:20])
+                    rc2, out2 = sh("ctest --test-dir _build --rerun-failed -j1 --timeout 900", cwd=wt)
+                    tries += 1
                 res["suite_test_rc"] = rc2
                 res["suite_tail"] = out2[-300:]
             else:
